@@ -59,7 +59,8 @@ func (b *ProcessLogBuffer) GetLogRange(offsetFromEnd, limit int) []string {
 	if limit == 0 {
 		return b.buffer[len(b.buffer)-offsetFromEnd:]
 	}
-	return b.buffer[len(b.buffer)-offsetFromEnd : offsetFromEnd+limit]
+	start := len(b.buffer) - offsetFromEnd
+	return b.buffer[start : start+limit]
 }
 
 func (b *ProcessLogBuffer) GetLogLength() int {
